@@ -99,6 +99,13 @@ CLAIMED["C08"] = ("4/C08", "parse(s) for EVERY text of length <= 4 (5 in thoroug
                   "values, failures produce their error; create_with_invariant_culture for every pattern text of length <= 2 (3 in thorough) over "
                   "a 25-character pattern alphabet raises InvalidPatternError only.",
                   "invariant culture only; parse-failure message builders are stubbed (type and flags kept); longer skeleton texts only in thorough")
+CLAIMED["C07"] = ("4/C07", "format -> parse with symbolic formatting (the produced text stays symbolic): every Offset under g, G, l and two custom "
+                  "patterns (partitioned by sign and zero minute/second parts); every value of every single-field time and date pattern "
+                  "(H HH m mm s ss fff..., M MM d dd uuuu yyyy); two-field time patterns incl. 12-hour + am/pm; built-in ISO time patterns "
+                  "(zero fraction in quick, nanosecond fractions in thorough); ISO and custom three-field date patterns by year-digit count; "
+                  "duration round-trip pattern (thorough); re-formatting every successfully parsed text of length <= 6 under delimited patterns.",
+                  "invariant culture, ISO calendar only; the ~800 ICU cultures, text month/day names, eras and embedded patterns are outside the claim; "
+                  "the digit-recomposition identity handed to the solver is an arithmetic fact (fmtint plug-in)")
 NOT_BUILT = {}
 
 NA_REASON = "check not built yet in this round (design in DESIGN.md section 4); no claim is made"
